@@ -62,6 +62,7 @@ class AbstractHasMetadata(object):
 
     @attrs.setter
     def attrs(self, value):
+        value = dict(value) # read it first: it may be the very dictionary that is cleared (obj.attrs = obj.attrs)
         del self.attrs
         self.attrs.update(value)
          
